@@ -140,6 +140,17 @@ func init() {
 			x.cuts[a[0].(string)] = &cutSpec{loop: x.constInt(a[1], "loop index"), hook: a[2]}
 			return nil
 		},
+		// vSearch(prefix, tries, f): registers a native witness search for the engine-only lemmas whose id starts
+		// with prefix: when the solver refutes such a lemma, the real code is run natively by f on a deterministic
+		// battery of inputs to obtain a reproducible end-to-end witness (the solver's verdict decides; the search
+		// only supplies the replay).  Symbolically a no-op.
+		"vSearch": func(x *Exec, fn *ssa.Function, a []Value) Value {
+			if x.searches == nil {
+				x.searches = map[string]bool{}
+			}
+			x.searches[a[0].(string)] = true
+			return nil
+		},
 		"vUncut": func(x *Exec, fn *ssa.Function, a []Value) Value {
 			delete(x.cuts, a[0].(string))
 			return nil
